@@ -381,7 +381,7 @@ func spawnReplay(c *Check, tier Tier, seed uint64, tapes map[string][]uint32, sc
 		if err != nil {
 			return nil, fmt.Errorf("replay process failed: %v\n%s", err, stderr.String())
 		}
-	case <-time.After(120 * time.Second):
+	case <-time.After(400 * time.Second):
 		cmd.Process.Kill()
 		return nil, fmt.Errorf("replay process timed out")
 	}
@@ -678,16 +678,34 @@ func parentMain(c *Check, tier Tier, seed uint64, nworkers int, evidencePath, re
 			fmt.Fprintf(os.Stderr, "INFRASTRUCTURE: %s\n%s\n", fp, f.V.Detail)
 			return 2
 		}
-		// confirm
-		ro, err := spawnReplay(c, tier, f.Seed, f.Tapes, scratch)
-		if err != nil {
-			fmt.Fprintf(os.Stderr, "INFRASTRUCTURE: cannot replay %s: %v\n", fp, err)
-			return 2
+		// confirm in a fresh process.  The schedule replays exactly; what the race
+		// detector still remembers when the second access happens does not always
+		// (its shadow cells are evicted pseudo-randomly), so a data-race report is
+		// given a few attempts and, being evidence by itself (the detector has no
+		// false positives), is kept even if the detector stays silent on replay.
+		var ro *replayOut
+		var err error
+		var cv *Violation
+		attempts := 1
+		if f.V.Clause == "data-race" {
+			attempts = 4
 		}
-		cv := hasFP(ro.Viol, fp)
+		for a := 0; a < attempts && cv == nil; a++ {
+			ro, err = spawnReplay(c, tier, f.Seed, f.Tapes, scratch)
+			if err != nil {
+				fmt.Fprintf(os.Stderr, "INFRASTRUCTURE: cannot replay %s: %v\n", fp, err)
+				return 2
+			}
+			cv = hasFP(ro.Viol, fp)
+		}
+		unconfirmedRace := false
 		if cv == nil {
-			fmt.Fprintf(os.Stderr, "INFRASTRUCTURE: violation %s (seed %d) did not reproduce in a fresh process; first report:\n%s\n", fp, f.Seed, f.V.Detail)
-			return 2
+			if f.V.Clause != "data-race" {
+				fmt.Fprintf(os.Stderr, "INFRASTRUCTURE: violation %s (seed %d) did not reproduce in a fresh process; first report:\n%s\n", fp, f.Seed, f.V.Detail)
+				return 2
+			}
+			unconfirmedRace = true
+			ro.Viol = append(ro.Viol, f.V)
 		}
 		// known finding?
 		matched := false
@@ -706,7 +724,7 @@ func parentMain(c *Check, tier Tier, seed uint64, nworkers int, evidencePath, re
 		nviol++
 		tapes, tries := f.Tapes, 0
 		minimised := false
-		if nviol <= 3 {
+		if nviol <= 3 && !unconfirmedRace {
 			tapes, tries = shrink(c, tier, f.Seed, f.Tapes, fp, scratch, budget)
 			minimised = true
 		}
@@ -718,6 +736,9 @@ func parentMain(c *Check, tier Tier, seed uint64, nworkers int, evidencePath, re
 		v := hasFP(fin.Viol, fp)
 		rf := &ReplayFile{Property: c.ID, Tier: tier.String(), Seed: f.Seed, Fingerprint: fp, Clause: v.Clause, Detail: v.Detail,
 			Tapes: fin.Tapes, Scenario: fin.Scenario, Minimised: minimised, ShrinkTries: tries}
+		if unconfirmedRace {
+			rf.Note = "the schedule replays exactly but the race detector did not repeat its report in 4 fresh processes (shadow-cell eviction); the original report is in detail"
+		}
 		os.MkdirAll(filepath.Join(replayDir, c.ID), 0o755)
 		name := filepath.Join(replayDir, c.ID, fmt.Sprintf("%016x.json", hash64(fp)))
 		b, _ := json.MarshalIndent(rf, "", " ")
